@@ -227,7 +227,7 @@ class FFTMTF:
                 limit reference line. Defaults to False.
         """
         dx = self._get_mtf_units()
-        freq = np.arange(self.grid_size//2) * dx
+        freq = np.arange(len(self.mtf[0][0])) * dx
 
         _, ax = plt.subplots(figsize=figsize)
 
